@@ -359,7 +359,10 @@ RECOGNIZERS = {"digits": rec_digits, "word": rec_word, "upper": rec_upper}
 # ----------------------------------------------------------------------------
 # scenario families
 
-OPS = ["+", "-", "*", "/", "^", "%", "<", "&"]
+# operator texts become the NAMES of inline terminals: punctuation that is
+# special somewhere else (comma, colon, bar, quotes, backslash) is included on
+# purpose - names end up in saved tables and in the keys of compiled error hints
+OPS = ["+", "-", "*", "/", "^", "%", "<", "&", ",", ":", "|", "=", "'", "\\", "\""]
 OPS_U = ["\u20ac", "\u00d7", "\u2192", "\u2218"]  # euro, times, arrow, ring
 NUMS = ["1", "2", "3", "42", "7", "10"]
 IDS = ["a", "b", "x", "y1", "foo", "bar_2", "q"]
